@@ -6,6 +6,7 @@ void with_shape(const std::string &shape, F &&f)
     else if (shape == "tss") f.template operator()<S_TSS>();
     else if (shape == "tsd") f.template operator()<S_TSD>();
     else if (shape == "tsl") f.template operator()<S_TSL>();
+    else if (shape == "dl") f.template operator()<S_DL>();
     else if (shape == "tsb") f.template operator()<S_TSB>();
     else if (shape == "tsw") f.template operator()<S_TSW>();
     else if (shape == "dss") f.template operator()<S_DSS>();
